@@ -489,6 +489,8 @@ class SimPool(cf.Executor):
         for x in s.workers:
             x.waiting = False
         t.done = True
+        if any(c.ordinal > t.ordinal for c in s.completed):
+            s.stats["completion_neq_submission"] += 1  # overtaken by a later-submitted task (statistic only, not logged)
         s.completed.append(t)
         s.stats["tasks"] += 1
         s.log.add(s.step, "done", t.ordinal, w.ordinal)
